@@ -46,6 +46,9 @@ type Net struct {
 	Faults Faults
 	// OnCall observes every delivered unary call (oracles).
 	OnCall func(from, to int, method string)
+	// OnServerSend / OnClientRecv observe stream messages (server -> client direction) for oracles.
+	OnServerSend func(method string, serverNode int, msg interface{})
+	OnClientRecv func(method string, clientNode int, msg interface{})
 }
 
 var (
@@ -361,6 +364,9 @@ func (s *clientStream[C2S, S2C]) Recv() (*S2C, error) {
 				s.n.Sim.Count("fault.net.cut-blocked")
 				continue
 			}
+			if s.n.OnClientRecv != nil {
+				s.n.OnClientRecv(s.method, s.from, m)
+			}
 			return m, nil
 		case <-s.srvDone:
 			simrt.Resume()
@@ -417,6 +423,9 @@ func (s *serverStream[C2S, S2C]) Send(m *S2C) error {
 	simrt.Yield("net.ssend " + s.method)
 	if err := s.sctx.Err(); err != nil {
 		return status.FromContextError(err).Err()
+	}
+	if s.n.OnServerSend != nil {
+		s.n.OnServerSend(s.method, s.to, m)
 	}
 	select {
 	case s.s2c <- clone(m):
